@@ -358,7 +358,7 @@ pub fn slow_lookup_scenario(r: &mut Report, seed: u64) {
         // term -, so it is read at every iteration of the node's loop; an answer counts as delivered if, by that
         // timeline, its request was never older than the timeout in force until the answer was received)
         let mark = log.lock().unwrap_or_else(|e| e.into_inner()).len();
-        let (res, line): (Option<Option<MutableItem>>, Vec<(u64, u64)>) = if sync {
+        let (res, mut line): (Option<Option<MutableItem>>, Vec<(u64, u64)>) = if sync {
             let d = x.dht.clone();
             let sl = salt.clone();
             let h = std::thread::spawn(move || d.get_mutable_most_recent(&key, sl.as_deref()));
@@ -377,6 +377,10 @@ pub fn slow_lookup_scenario(r: &mut Report, seed: u64) {
         r.count("slow_lookup/lookups");
         let newest_addr = ends[round.borrow().1].1;
         let newest_exchange = log.lock().unwrap_or_else(|e| e.into_inner())[mark..].iter().rev().find(|e| e.to == newest_addr && e.name == "get" && e.target == Some(target)).cloned();
+        // (the call may have returned before that answer arrives: the timeline has to cover that moment)
+        if let Some(super::net::Exchange { answered: Some(t_a), .. }) = &newest_exchange {
+            super::net::extend_sampling_until(&w, &x, *t_a, &mut line);
+        }
         let delivered = match &newest_exchange {
             Some(super::net::Exchange { sent, answered: Some(t_a), .. }) => super::net::alive_until_answered(&line, *sent, *t_a),
             _ => false,
